@@ -74,6 +74,18 @@ func FlowPath(v ssa.Value, use ssa.Instruction, isSource func(ssa.Value) bool, c
 				if isSource(x) {
 					return true
 				}
+				// a parameter of a private helper: the flow continues at the only call site
+				if par, ok := x.(*ssa.Parameter); ok {
+					if cs := privateCallSite(par.Parent()); cs != nil {
+						for i, q := range par.Parent().Params {
+							if q == par && i < len(cs.Common().Args) {
+								if FlowPath(cs.Common().Args[i], cs, isSource, cut, transfer) {
+									return true
+								}
+							}
+						}
+					}
+				}
 				continue // parameter/constant that is not a source
 			}
 			push(state{x, s.b, true})
